@@ -261,3 +261,32 @@ Proof.
   destruct t; simpl; intros H; inversion H; subst e; (split; [eexists; eexists; split; reflexivity|]);
     eexists; (split; [vm_compute; reflexivity|vm_compute; reflexivity]).
 Qed.
+
+(* unlambda *)
+Theorem unlambda_pkg_func_stable n : callee_stable (CPkgFunc n).
+Proof. intros st1 st2. reflexivity. Qed.
+
+Definition st_a : lstore := {| fvar := fun _ => "hi"; ffield := fun _ _ => "hi"; rstate := fun _ => 1%Z; rptr := fun _ => 0%N |}.
+Definition st_b : lstore := {| fvar := fun _ => "hj"; ffield := fun _ _ => "hj"; rstate := fun _ => 2%Z; rptr := fun _ => 1%N |}.
+
+(* every other callee form reads the state *)
+Theorem unlambda_stable_only_pkg_func c : callee_stable c -> exists n, c = CPkgFunc n.
+Proof.
+  intros S. specialize (S st_a st_b). destruct c as [n|x|o p f|r [] m]; simpl in S; try discriminate. eauto.
+Qed.
+
+(* what the checker flags: declared functions, and method values of struct variables *)
+Theorem unlambda_flags_shape c : unlambda_flags c = true -> (exists n, c = CPkgFunc n) \/ (exists r m, c = CMethod r false m).
+Proof. destruct c as [n|x|o p f|r [] m]; simpl; try discriminate; eauto. Qed.
+
+(* the second kind is not stable: the method value binds a copy of the receiver when it is evaluated *)
+Theorem unlambda_method_value_refuted :
+  exists c st1 st2, unlambda_flags c = true /\ callee_eval st1 c <> callee_eval st2 c.
+Proof. exists (CMethod "sv" false "add"), st_a, st_b. split; [reflexivity|discriminate]. Qed.
+
+(* func-typed fields and variables, and method values through a pointer, are unstable but never flagged *)
+Theorem unlambda_unstable_forms_not_flagged c :
+  unlambda_flags c = false -> ~ callee_stable c.
+Proof.
+  intros F S. destruct (unlambda_stable_only_pkg_func c S) as [n ->]. discriminate.
+Qed.
